@@ -92,19 +92,22 @@ def get_adjusted_url(url: str, addr: AddressTupleVXType) -> str:
     if not addr[3]:
         return url
 
-    data = urlsplit(url)
-    assert data.hostname
     try:
-        address = ip_address(data.hostname)
+        data = urlsplit(url)
+        hostname = data.hostname
+        port = data.port
+        if not hostname:
+            return url
+        address = ip_address(hostname)
     except ValueError:
         return url
 
     if not address.is_link_local:
         return url
 
-    netloc = f"[{data.hostname}%{addr[3]}]"
-    if data.port:
-        netloc += f":{data.port}"
+    netloc = f"[{hostname}%{addr[3]}]"
+    if port:
+        netloc += f":{port}"
     return urlunsplit(data._replace(netloc=netloc))
 
 
